@@ -130,6 +130,11 @@ theorem fact_empty_vp_checked :
        "err != nil", "subjectDID == nil",
        "!expectedCredentialSubjectDID.Empty() && !subjectDID.Equals(expectedCredentialSubjectDID)"] := by decide
 
+/-- `validatePresentationAudience` compares an audience with the authorization-server URL by EQUALITY
+    (`checkAudience`: membership of the exact URL) -/
+theorem fact_audience_exact :
+    Facts.C02.validateAudienceConds = ["err != nil", "proof.Domain != nil", "aud == expected.String()"] := by decide
+
 /-- the s2s nonce is remembered for the whole window in which the verifier accepts the presentation -/
 theorem fact_nonce_ttl_covers_window :
     Facts.C02.s2sMaxValidityMs + 2 * Facts.C02.verifierMaxSkewMs ≤ Facts.C02.s2sNonceTtlMs := by decide
